@@ -1,7 +1,7 @@
 (* C09 -- random-access reads through an index return exactly the blob's bytes.
    Only statements, [exact], Print Assumptions and Examples live here.
    Model: Model/ReadSeeker.v (readseeker.go IndexPos, nullchunk.go, mount-index.go indexFileHandle.read). *)
-From Coq Require Import List NArith ZArith Arith.
+From Coq Require Import List NArith ZArith Arith Permutation.
 From DS Require Import Base.Bytes Base.Hash Model.ReadSeeker Proofs.ReadSeekerProofs.
 Import ListNotations.
 Local Open Scope Z_scope.
@@ -98,6 +98,19 @@ Theorem C09_fuse_overlapping_reads : forall H maxsz idx blob rqs st calls off le
             (snd (fuse_read st nc idx (s, calls) off len)) \/ Collision H.
 Proof. exact fuse_overlapping_reads. Qed.
 Print Assumptions C09_fuse_overlapping_reads.
+
+(* Concurrent requests on ONE handle.  indexFileHandle.read holds the handle's mutex across Seek + Read, so requests that
+   arrive while another one is under way (kernel read-ahead) are served one at a time in the order the mutex lets
+   them in: some permutation [served] of the requests [issued].  For EVERY such order every answer is the blob's bytes
+   blob[off, off+min(size, L-off)), or EIO only for an offset outside the blob or when the store fails (fuse_answer_ok).
+   That the requests of a handle are atomic is the model's reading of that mutex; the harness checks it on the
+   implementation: one request is parked inside GetChunk while another one is issued on the SAME handle. *)
+Theorem C09_fuse_any_admission_order : forall H maxsz idx blob store n issued served,
+  index_describes H idx blob -> store_sound H store -> Permutation issued served ->
+  let nc := new_null_chunk H maxsz in
+  Forall2 (fuse_answer_ok blob store n) served (snd (fuse_run store nc idx (fuse_open idx n) served)) \/ Collision H.
+Proof. exact fuse_any_admission_order. Qed.
+Print Assumptions C09_fuse_any_admission_order.
 
 (* The empty index (empty blob): for every history and every store, each Read returns (0, io.EOF), Seek succeeds
    exactly when its target is 0, the store is never called, nothing panics. *)
